@@ -33,6 +33,8 @@ def run(ctx):
         for mu, valid in singles:
             for d in ("intact", "one"):
                 cases.append({"muts": [mu], "valid": valid, "data": d})
+            if mu["field"] == "recv.exps_vdm_singular":
+                cases.append({"muts": [mu], "valid": valid, "data": "two02"})      # the two slices whose constants make the system singular
         npairs = 20000 if ctx.thorough else 700
         rr = random.Random(ctx.seed * 7 + 1)
         for _ in range(npairs):
